@@ -186,4 +186,156 @@ theorem cmp_transfer (S r m N k L X Y : Nat) (sci te : Int) (hr : 0 < r) (hY : 0
           m * r ^ e2 * 2 ^ k * (r ^ (1 + s1 + e2 + s2 + N) * 2 ^ (t2 + k)) := this
       _ = m * 2 ^ k * r ^ e2 * (r ^ (1 + s1 + e2 + s2 + N) * 2 ^ (t2 + k)) := by ring
 
+/-! ## `byte_comp` in named pieces -/
+
+/-- numerator and denominator of `(b + h) / radix^sci` -/
+def pairL (cap : Nat) (sciExp : Int) (theor factor : BF) : Option (BF × BF) :=
+  if sciExp < 0 then
+    (largeMulL cap factor.data theor.data).map fun d => (⟨d, factor.exp⟩, ⟨fromU64L 1, -theor.exp⟩)
+  else some (theor, factor)
+
+/-- the normalisation shift of the denominator -/
+def normDenL (cap wlz : Nat) (den : BF) : Option BF :=
+  let nlz := (leadingZerosL den.data + 2 ^ 32 - wlz) % 2 ^ 32 % 32
+  if nlz ≠ 0 then (shlBitsL cap den.data nlz).map fun d => ⟨d, den.exp - nlz⟩ else some den
+
+/-- the alignment of the exponents -/
+def alignL (cap : Nat) (num den : BF) : Option (BF × BF) :=
+  let diff := wrapI32 (den.exp - num.exp)
+  let shift := diff.natAbs
+  if diff < 0 then (shlL cap num.data shift).map fun d => (⟨d, num.exp - shift⟩, den)
+  else if diff > 0 then
+    let q := if shift % 64 = 0 then shift / 64 else shift / 64 + 1
+    let r := if shift % 64 = 0 then 0 else 64 - shift % 64
+    let num1 : Option BF := if r ≠ 0 then (shlBitsL cap num.data r).map fun d => ⟨d, num.exp - r⟩ else some num
+    num1.bind fun num =>
+      if q ≠ 0 then (shlLimbsL cap den.data q).map fun d => (num, ⟨d, den.exp - 64 * q⟩) else some (num, den)
+  else some (num, den)
+
+theorem byteComp_eq (E : Env) (F : FTy) (radix : Nat) (integer : List Nat) (fraction : Option (List Nat))
+    (fp : ExtendedFloat80) (sciExp : Int) :
+    byteComp E F radix integer fraction fp sciExp =
+      if E.debug && fp.mant / 2 ^ 63 % 2 = 0 then none else
+      let cap := E.L.bigfloatBits / E.L.limbBits
+      let bh := bhOf F (extendedToFloat F (round F fp roundDown))
+      (bigfloatPow E cap ⟨fromU64L 1, 0⟩ radix sciExp.natAbs).bind fun factor =>
+        (pairL cap sciExp ⟨fromU64L bh.mant, bh.exp⟩ factor).bind fun nd =>
+          (normDenL cap (E.L.integralBinaryFactor radix) nd.2).bind fun den =>
+            (alignL cap nd.1 den).bind fun nd2 =>
+              (compareBytes cap radix integer fraction nd2.1.data nd2.2.data).map fun ord =>
+                round F fp fun f s => roundNearestTieEven f s fun isOdd _ _ => ordUp ord isOdd := rfl
+
+/-! ## the pieces -/
+
+theorem shlBitsL_len {cap : Nat} {x : Limbs} (ox : LimbsOk x) (hlen : x.length ≤ cap) {n : Nat} (hn0 : 0 < n) (hn : n < 64)
+    {z : Limbs} (h : shlBitsL cap x n = some z) : z.length ≤ cap := by
+  obtain ⟨_, h2, _, _⟩ := shlBitsGo_spec n hn0 hn x 0 ox B64_pos
+  unfold shlBitsL at h
+  dsimp only at h
+  split at h
+  · unfold tryPush at h
+    split at h
+    · injection h with h; subst h; simp; omega
+    · exact absurd h (by simp)
+  · injection h with h; subst h; rw [h2]; exact hlen
+
+theorem leadingZerosL_snoc (ds : Limbs) (t : Nat) : leadingZerosL (ds ++ [t]) = clz64 t := by
+  unfold leadingZerosL; simp
+
+/-- the normalised denominator -/
+theorem normDenL_spec {cap wlz : Nat} (hw1 : 1 ≤ wlz) (hw6 : wlz ≤ 6) {den d1 : BF} (hn : Normalized den.data)
+    (hne : den.data ≠ []) (hl : den.data.length ≤ cap) (h : normDenL cap wlz den = some d1) :
+    ∃ nlz : Nat, nlz < 32 ∧ d1.exp = den.exp - nlz ∧ Normalized d1.data ∧ valL d1.data = valL den.data * 2 ^ nlz ∧
+      d1.data.length ≤ cap ∧ ∃ ds1 t1, d1.data = ds1 ++ [t1] ∧ 2 ^ 25 ≤ t1 ∧ t1 + 1 ≤ 2 ^ (64 - wlz) := by
+  rcases eq_nil_or_snoc den.data with h0 | ⟨ds, t, hdt⟩
+  · exact absurd h0 hne
+  unfold normDenL at h
+  rw [hdt, leadingZerosL_snoc] at h
+  dsimp only at h
+  generalize hnlz : (clz64 t + 2 ^ 32 - wlz) % 2 ^ 32 % 32 = nlz at h
+  have hlt : nlz < 32 := by rw [← hnlz]; exact Nat.mod_lt _ (by decide)
+  refine ⟨nlz, hlt, ?_⟩
+  by_cases h0 : nlz = 0
+  · rw [if_neg (by simpa using h0)] at h
+    injection h with h; subst h
+    refine ⟨by rw [h0]; simp, hn, by rw [h0]; simp, hl, ?_⟩
+    exact den_top (by rw [← hdt]; exact hn) wlz hw1 hw6 den.data hn (by rw [hnlz, h0, hdt]; simp)
+  · rw [if_pos h0] at h
+    obtain ⟨D1, hD1, hd1⟩ := Option.map_eq_some_iff.mp h
+    subst hd1
+    rw [← hdt] at hD1
+    obtain ⟨b1, _⟩ := shlBitsL_spec (cap := cap) hn hl (Nat.pos_of_ne_zero h0) (by omega : nlz < 64)
+    obtain ⟨n1, v1⟩ := b1 D1 hD1
+    refine ⟨rfl, n1, v1, shlBitsL_len hn.1 hl (Nat.pos_of_ne_zero h0) (by omega) hD1, ?_⟩
+    exact den_top (by rw [← hdt]; exact hn) wlz hw1 hw6 D1 n1 (by rw [hnlz, v1, hdt])
+
+/-- the aligned pair: the numerator shifted by `s1` bits, the denominator by `s2` bits (whole limbs: its top limb is
+kept), `s1 − s2` the difference of the exponents -/
+theorem alignL_spec {cap : Nat} {num den : BF} {nd2 : BF × BF} (hN : Normalized num.data) (hNne : num.data ≠ [])
+    (hNl : num.data.length ≤ cap) (hD : Normalized den.data) (hDne : den.data ≠ [])
+    (he1 : -(2 ^ 30 : Int) < num.exp ∧ num.exp < 2 ^ 30) (he2 : -(2 ^ 30 : Int) < den.exp ∧ den.exp < 2 ^ 30)
+    (h : alignL cap num den = some nd2) :
+    ∃ s1 s2 qq : Nat, Normalized nd2.1.data ∧ valL nd2.1.data = valL num.data * 2 ^ s1 ∧
+      nd2.2.data = List.replicate qq 0 ++ den.data ∧ valL nd2.2.data = valL den.data * 2 ^ s2 ∧
+      (qq ≠ 0 → qq + den.data.length ≤ cap) ∧ (s1 : Int) - s2 = num.exp - den.exp := by
+  have h30 : (2 : Int) ^ 30 = 1073741824 := by norm_num
+  have h31 : (2 : Int) ^ 31 = 2147483648 := by norm_num
+  have hw : wrapI32 (den.exp - num.exp) = den.exp - num.exp := wrapI32_eq (by omega) (by omega)
+  unfold alignL at h
+  rw [hw] at h
+  dsimp only at h
+  by_cases hneg : den.exp - num.exp < 0
+  · rw [if_pos hneg] at h
+    obtain ⟨d, hd, rfl⟩ := Option.map_eq_some_iff.mp h
+    obtain ⟨a1, _⟩ := shlL_spec (cap := cap) hN hNne hNl (den.exp - num.exp).natAbs
+    obtain ⟨n1, v1⟩ := a1 d hd
+    exact ⟨(den.exp - num.exp).natAbs, 0, 0, n1, v1, by simp, by simp, fun h => absurd rfl h, by omega⟩
+  · rw [if_neg hneg] at h
+    by_cases hpos : den.exp - num.exp > 0
+    · rw [if_pos hpos] at h
+      generalize hsh : (den.exp - num.exp).natAbs = shift at h
+      have hshift : (shift : Int) = den.exp - num.exp := by omega
+      generalize hq : (if shift % 64 = 0 then shift / 64 else shift / 64 + 1) = qq at h
+      generalize hr : (if shift % 64 = 0 then 0 else 64 - shift % 64) = rr at h
+      have hqr : 64 * qq = shift + rr ∧ rr < 64 := by
+        have := Nat.div_add_mod shift 64
+        by_cases hm : shift % 64 = 0
+        · rw [if_pos hm] at hq hr; omega
+        · rw [if_neg hm] at hq hr
+          have := Nat.mod_lt shift (show 0 < 64 by decide)
+          omega
+      obtain ⟨num1, hn1, h⟩ := Option.bind_eq_some_iff.mp h
+      -- the numerator
+      have hnum1 : Normalized num1.data ∧ valL num1.data = valL num.data * 2 ^ rr := by
+        by_cases hr0 : rr = 0
+        · rw [if_neg (by simpa using hr0)] at hn1
+          injection hn1 with hn1; subst hn1
+          exact ⟨hN, by rw [hr0]; simp⟩
+        · rw [if_pos hr0] at hn1
+          obtain ⟨d, hd, rfl⟩ := Option.map_eq_some_iff.mp hn1
+          obtain ⟨b1, _⟩ := shlBitsL_spec (cap := cap) hN hNl (Nat.pos_of_ne_zero hr0) hqr.2
+          exact b1 d hd
+      by_cases hq0 : qq = 0
+      · rw [if_neg (by simpa using hq0)] at h
+        injection h with h; subst h
+        exact ⟨rr, 0, 0, hnum1.1, hnum1.2, by simp, by simp, fun h => absurd rfl h, by omega⟩
+      · rw [if_pos hq0] at h
+        obtain ⟨d, hd, rfl⟩ := Option.map_eq_some_iff.mp h
+        unfold shlLimbsL at hd
+        split at hd
+        · exact absurd hd (by simp)
+        · rename_i hcap
+          have hemp : den.data.isEmpty = false := by
+            cases hdd : den.data with
+            | nil => exact absurd hdd hDne
+            | cons a as => rfl
+          rw [hemp] at hd
+          simp only [Bool.false_eq_true, if_false] at hd
+          injection hd with hd; subst hd
+          refine ⟨rr, 64 * qq, qq, hnum1.1, hnum1.2, rfl, ?_, fun _ => by omega, by omega⟩
+          rw [valL_zeros_append, B64_pow, Nat.mul_comm]
+    · rw [if_neg hpos] at h
+      injection h with h; subst h
+      exact ⟨0, 0, 0, hN, by simp, by simp, by simp, fun h => absurd rfl h, by omega⟩
+
 end LexVerif.Proof.Slow
